@@ -77,6 +77,7 @@ const (
 	KNilSliceError   // nil value of a named slice type whose Error method indexes it (panics)
 	KNilFuncStringer // nil value of a named func type whose String method calls it (panics)
 	KFormatterWS     // fmt.Formatter writing through io.WriteString (the io.StringWriter fast path)
+	KRune            // a rune (int32) operand that is a marker character, a line feed or an ordinary letter: %c %q %U %#U render the character itself
 	KMapSortKeys     // maps whose printing order exercises fmtsort: unsigned keys around 1<<63, signed, floats incl. NaN/Inf/-0, bool, arrays, complex, uintptr
 	kindCount
 )
@@ -262,6 +263,9 @@ func (v *Val) build(inst int) interface{} {
 		return unsafeInt(v.ID, inst)
 	case KInt8:
 		return int8(-(unsafeInt(v.ID, inst) % 100))
+	case KRune:
+		// both instantiations are single characters without a line feed (same shape); one of them a marker
+		return [][2]rune{{'‹', 'x'}, {'y', '›'}, {'›', '‹'}, {'é', 'z'}, {0x2039, 0x203A}}[v.ID%5][inst%2]
 	case KUint16:
 		return uint16(unsafeInt(v.ID, inst) % 60000)
 	case KUint64:
@@ -489,7 +493,7 @@ func (v *Val) ownClass() bool {
 var leafKinds = []VKind{KNil, KBool, KInt, KInt8, KUint16, KUint64, KUintptr, KFloat, KComplex, KString, KBytes, KNamedStr, KNamedInt,
 	KSafeStr, KSafeInt, KRegInt, KRegStruct, KErr, KStringer, KPStringer, KNilStringer, KGoStringer, KFormatter, KSafeFormatter, KSafeMessager,
 	KErrFormatter, KErrStringer, KPanicStringer, KPanicError, KPanicSafeFormatter, KPtrStruct, KPtrRegStruct, KNilPtr, KIntPtr, KStrSlice, KIntArr, KMapKeyed,
-	KRedactable, KRedactableB, KChan, KFunc, KByteArr, KDuration, KBuilder, KSafeStringer, KFormatterWS, KMapIfaceKey, KMapStructKey, KNilMapStringer, KNilSliceError, KNilFuncStringer, KMapSortKeys}
+	KRedactable, KRedactableB, KChan, KFunc, KByteArr, KDuration, KBuilder, KSafeStringer, KFormatterWS, KMapIfaceKey, KMapStructKey, KNilMapStringer, KNilSliceError, KNilFuncStringer, KMapSortKeys, KRune}
 
 var redactPool = []string{"", "plain", "‹x›", "a ‹b› c", "‹a›\n‹b›", "?‹?›", "‹×›", "‹ ›x\n", "pre‹u1›mid‹u2›post", "‹q?z›"}
 
@@ -555,7 +559,7 @@ func (v *Val) String() string {
 		KPanicSafeFormatter: "panicSafeFormatter", KPtrStruct: "*struct", KPtrRegStruct: "*RegStruct", KNilPtr: "nil*struct", KIntPtr: "*int", KReflectValue: "reflect.Value",
 		KSafe: "Safe", KUnsafe: "Unsafe", KSlice: "[]any", KStrSlice: "[]string", KIntArr: "[2]int", KMap: "map", KMapKeyed: "map[MyStr]int",
 		KStruct: "struct", KRedactable: "RedactableString", KRedactableB: "RedactableBytes", KChan: "chan", KFunc: "func", KByteArr: "[3]byte",
-		KDuration: "dur", KBuilder: "*StringBuilder", KSafeStringer: "SafeStringer", KFormatterWS: "FormatterWS", KMapIfaceKey: "map[any]string", KMapStructKey: "map[struct]int", KMapSortKeys: "map[sortable]string", KNilMapStringer: "nilMapStringer", KNilSliceError: "nilSliceError", KNilFuncStringer: "nilFuncStringer"}
+		KDuration: "dur", KBuilder: "*StringBuilder", KSafeStringer: "SafeStringer", KFormatterWS: "FormatterWS", KMapIfaceKey: "map[any]string", KMapStructKey: "map[struct]int", KMapSortKeys: "map[sortable]string", KRune: "rune", KNilMapStringer: "nilMapStringer", KNilSliceError: "nilSliceError", KNilFuncStringer: "nilFuncStringer"}
 	s := names[v.K]
 	if v.K == KRedactable || v.K == KRedactableB {
 		s += fmt.Sprintf("%q", v.R)
@@ -574,7 +578,7 @@ func (v *Val) String() string {
 
 // ---- formats
 
-var verbs = []string{"v", "+v", "#v", "s", "d", "x", "X", "q", "t", "T", "p", "c", "U", "e", "f", "g", "b", "o", "O", "w", "z", "!", "世"}
+var verbs = []string{"v", "+v", "#v", "s", "d", "x", "X", "q", "t", "T", "p", "c", "U", "#U", "#q", "e", "f", "g", "b", "o", "O", "w", "z", "!", "世"}
 
 func genDirective(r *Rng) string {
 	var sb strings.Builder
@@ -591,7 +595,8 @@ func genDirective(r *Rng) string {
 		}
 	}
 	if r.Chance(25) {
-		sb.WriteString([]string{"0", "1", "7", "12"}[r.Intn(4)])
+		// 20 and 30 exceed every rendering of the unsafe words, so that padding is really written
+		sb.WriteString([]string{"0", "1", "7", "12", "20", "30"}[r.Intn(6)])
 	}
 	if r.Chance(20) {
 		sb.WriteString([]string{".0", ".1", ".5", "."}[r.Intn(4)])
@@ -616,7 +621,7 @@ func genFormat(r *Rng, n int, allowW bool) string {
 	}
 	sb.WriteString(lits[r.Intn(len(lits))])
 	if r.Chance(8) {
-		sb.WriteString([]string{"%", "%!", "%[1]v", "%[9]d", "%*d", "%.*f", "%[2]*[1]d", "%-", "%1", "%[", "%[x]d", "%v"}[r.Intn(12)])
+		sb.WriteString([]string{"%", "%!", "%[1]v", "%[9]d", "%*d", "%.*f", "%[2]*[1]d", "%-", "%1", "%[", "%[x]d", "%v", "%[0]d", "%[0]*d", "%.[0]*d", "%[1000001]d", "%[18446744073709551616]v", "%[-1]d", "%[1]*[0]d"}[r.Intn(19)])
 	}
 	return sb.String()
 }
